@@ -38,17 +38,29 @@ Verdict judge(const Case& c) {
   for (size_t k = 0; k < S.pts.size(); ++k) if (std::abs(ws[k]) > 1 || std::abs(wc[k]) > 1) multi = true;
   if (multi) ST.count("with_multiple_winding");
 
+  bool G_freeAlt = (subj.size() + clip.size() + (subj.empty() || subj[0].empty() ? 0 : (size_t)(subj[0][0].x & 1))) % 2 == 1;
   shim::BoolArgs ha;
   ha.subj = toShim(subj);
   ha.clip = toShim(clip);
-  for (int variant = 0; variant < 2; ++variant)
+  for (int variant = 0; variant < 3; ++variant)
     for (ClipType ct : CTS)
       for (FillRule fr : FRS)
         for (int pc = 0; pc < 2; ++pc)
           for (int rev = 0; rev < 2; ++rev) {
             Paths64 sol;
             bool ok;
-            if (variant == 0) {
+            if (variant == 2) {
+              // the free-function route (Intersect / Union / Difference / Xor and BooleanOp, default options)
+              if (pc != 0 || rev != 0) continue;
+              ok = true;
+              if (G_freeAlt) sol = BooleanOp(ct, fr, subj, clip);
+              else switch (ct) {
+                case ClipType::Intersection: sol = Intersect(subj, clip, fr); break;
+                case ClipType::Union: sol = clip.empty() ? Union(subj, fr) : Union(subj, clip, fr); break;
+                case ClipType::Difference: sol = Difference(subj, clip, fr); break;
+                default: sol = Xor(subj, clip, fr); break;
+              }
+            } else if (variant == 0) {
               Clipper64 cl;
               cl.PreserveCollinear(pc != 0);
               cl.ReverseSolution(rev != 0);
@@ -63,7 +75,7 @@ Verdict judge(const Case& c) {
             }
             v.evals++;
             std::string cfg = std::string(" [") + O::ctName(ct) + "," + O::frName(fr) + ",pc=" + std::to_string(pc) +
-                              ",rev=" + std::to_string(rev) + (variant ? ",HI_PRECISION" : "") + "]";
+                              ",rev=" + std::to_string(rev) + (variant == 1 ? ",HI_PRECISION" : variant == 2 ? ",free function" : "") + "]";
             if (!ok) { v.fail("Execute returned false" + cfg); return v; }
             for (size_t k = 0; k < S.pts.size(); ++k) {
               bool sel = O::op(ct, O::filled(fr, ws[k]), O::filled(fr, wc[k]));
